@@ -95,6 +95,11 @@ static void sbbf(int scale) {
         if (carquet_bloom_filter_check_i32(f, 0) || carquet_bloom_filter_check_bytes(f, (const uint8_t*)"", 0)) v_viol("sbbf:fresh-filter-claims-membership", "req=%zu typed", req);
         carquet_bloom_filter_destroy(f); v_count("size_requests");
     }
+    /* sizes no allocator can serve, up to SIZE_MAX: refusal (NULL) is fine, a filter that is not a whole number (>= 1) of blocks covering the request is not */
+    for (int k = 0; k < 70; k++) { size_t req = k < 40 ? SIZE_MAX - (size_t)k : (SIZE_MAX >> (k - 39)) + (size_t)(k & 1); carquet_bloom_filter_t* f = carquet_bloom_filter_create(req); v_case(v_hash(&req, sizeof req, 12)); v_count("unservable_size_requests");
+        if (!f) { v_count("unservable_size_requests_refused"); continue; } size_t sz = carquet_bloom_filter_size(f), nb = carquet_bloom_filter_num_blocks(f);
+        if (sz % 32 || sz < 32 || sz < req || nb * 32 != sz) v_viol("sbbf:size-rounding:huge-request", "req=%zu size=%zu blocks=%zu", req, sz, nb); else { carquet_bloom_filter_insert_i64(f, 42); if (!carquet_bloom_filter_check_i64(f, 42)) v_viol("sbbf:false-negative:huge-request", "req=%zu", req); }
+        carquet_bloom_filter_destroy(f); }
     int64_t cases = scale >= 2 ? 20000 : 1500;
     for (int64_t ci = 0; ci < cases; ci++) {
         static const size_t sizes[] = {32, 64, 96, 128, 160, 1024, 1056, 4096, 32768, 65536, 1 << 20, 3 * 32, 7 * 32, 1000 * 32};
